@@ -82,8 +82,8 @@ def override_case(draw, tier, mode):
     else:
         r, _ = gen.invertible(draw, G, S)
         expr = {'k': 'I', 'op': r}
-    if draw(st.integers(0, 3)) == 0:
-        expr = {'k': 'T', 'op': expr} if not _has_cg(expr) else expr
+    if draw(st.integers(0, 3)) == 0 and expr['k'] != 'I':
+        expr = {'k': 'T', 'op': expr}
     return {'defs': G.defs, 'expr': expr, 'probe': draw(st.lists(st.integers(0, 1000), min_size=8, max_size=8)),
             'a': draw(st.sampled_from([1, -1, 2, 0.5, -0.25, 3])), 'b': draw(st.sampled_from([1, -2, 0.5, 0.75, -3])),
             'generic': draw(st.integers(0, 2)) == 0}
